@@ -57,6 +57,21 @@ def check(ctx):
     ok = ok and bool(good) and all(G.dominated([n], fc) for n in good)
     ctx.check(ok, "T3-close", lg, "Logger.log: all logs written, then flush when the period elapsed, flushStamp updated after flush()",
               "records written in this run must be part of the flush that follows them")
+    # flushStamp is the logger's claim "everything up to here is on disk": outside the stamps-are-None handler it may
+    # only be advanced after a flush of *every* log (Logger.flush) on that path
+    hb = {id(x) for h in ast.walk(lg) if isinstance(h, ast.ExceptHandler) for x in ast.walk(h)}
+    allst = [n for n in G.stores("self.flushStamp") if id(n.ast) not in hb]
+    ctx.check(bool(allst) and all(G.dominated([n], fc) for n in allst), "T3-close", lg,
+              "every advance of flushStamp (outside the TypeError arm) is preceded by self.flush()",
+              "advancing flushStamp without flushing every log suppresses the next periodic flush: records written before the "
+              "logger's last claimed flush are not on disk after a crash")
+    lcy = ctx.fn("logging", "Logger.cycle")
+    LC = FuncView(ctx, lcy)
+    lpc = LC.need(_framing.loops_over(LC, "self.logs"), "loop over self.logs in Logger.cycle")
+    inl = {n.id for n in LC.body_nodes(lpc[0].ast)}
+    leaves = [n for n in LC.cfg.nodes if n.kind in ("return", "break", "raise") and n.id in inl]
+    ctx.check(not leaves and bool(LC.call_nodes("log.cycle")), "T3-close", lcy, "Logger.cycle visits every log (no early exit from the loop)",
+              "a log that is below its size threshold must not stop the later logs from being flushed and rotated")
     lfl = ctx.fn("logging", "Logger.flush")
     ctx.check("log.flush()" in src(lfl) and "for log in self.logs" in src(lfl), "T3-close", lfl, "Logger.flush flushes every log", "")
     cy = L.own_method("cycle")
@@ -87,6 +102,20 @@ def check(ctx):
     re1 = [r for r in reo if ft and Y.dominated_by_edge([r], ft[0], "T")]
     ok = bool(ft) and bool(re1) and Y.dominated_by_edge(trn, ft[0], "F")
     ctx.check(ok, "T3-cycle", cy, "failed rename => reopen (append) and no truncation", "on a failed rotation the current file must be kept and appended to")
+    # the flag means "every rename succeeded": True before the chain, only ever cleared, and cleared in the handler of a failed rename
+    fstores = Y.stores("cycled")
+    inloop = [n for n in fstores if lps and id(n.ast) in {id(x) for x in ast.walk(lps[0].ast)}]
+    before = [n for n in fstores if n not in inloop]
+    hnds = [h for h in ast.walk(cy) if isinstance(h, ast.ExceptHandler)]
+    in_rename_handler = lambda n: any(id(n.ast) in {id(x) for x in ast.walk(h)} for h in hnds
+                                      if any(id(ren[0].ast) in {id(y) for y in ast.walk(t)} for t in ast.walk(cy)
+                                             if isinstance(t, ast.Try) and h in t.handlers))
+    okf = bool(before) and all(isinstance(n.ast, ast.Assign) and isinstance(n.ast.value, ast.Constant) and n.ast.value.value is True for n in before) \
+        and bool(inloop) and all(isinstance(n.ast, ast.Assign) and isinstance(n.ast.value, ast.Constant) and n.ast.value.value is False and in_rename_handler(n) for n in inloop) \
+        and bool(lps) and Y.dominated([lps[0]], before)
+    ctx.check(okf, "T3-cycle", cy, "`cycled` is True before the rename chain and is only cleared, by the handler of a failed rename",
+              "if one rename fails after an older copy moved, the current file has not been moved away: truncating it ('w+') "
+              "destroys every record in it; the flag guarding the truncation must mean *all* renames succeeded")
     re2 = [r for r in reo if r not in re1]
     ctx.check(bool(re2) and Y.dominated(re2, hw), "T3-cycle", cy, "after truncate + header: reopen for append", "")
     ro = L.own_method("reopen")
